@@ -6,6 +6,7 @@
                    default_rng(None), random.Random(), SeedSequence()) is logged and answered with a harness-chosen stream.
 * clear_numqi_caches : cache_clear() on every lru_cache reachable from the numqi modules
 """
+import functools
 import random
 import sys
 import time
@@ -177,6 +178,15 @@ SHARED_RESULT_FUNCTIONS = {
     'numqi.qec._qecc.parse_simple_pauli',
     'numqi.qec._internal.make_error_list',
     'numqi.qec._internal.make_asymmetric_error_set',
+    # public functions decorated directly with functools.lru_cache that return arrays (or containers of arrays)
+    'numqi.gate._pauli.get_pauli_group',
+    'numqi.matrix_space._hierarchy.get_antisymmetric_basis',
+    'numqi.matrix_space._hierarchy.get_symmetric_basis',
+    'numqi.matrix_space._hierarchy.naive_antisym_sym_projector',
+    'numqi.matrix_space._hierarchy.get_antisymmetric_basis_index',
+    'numqi.matrix_space._hierarchy.get_symmetric_basis_index',
+    'numqi.entangle.symext.get_symmetric_extension_index_list',
+    'numqi.entangle.symext.get_cvxpy_transpose0213_indexing',
 }
 
 
@@ -260,6 +270,13 @@ class ImmutabilityGuard:
         got = self._flat_numeric(r2)
         if got is None or len(got) != len(ref_):
             return
+        # 1e-6 for double precision (square roots at a spectrum edge amplify eps to ~1e-8); single-precision data: summation order
+        # alone moves a cancelling sum of D terms by D*eps32, so the bound scales with the lowest precision among arguments and results
+        rel = 1e-6
+        for x in list(a) + list(kw.values()) + list(ref_):
+            dt = getattr(x, 'dtype', None)
+            if dt is not None and str(dt).replace('torch.', '') in ('float32', 'complex64', 'float16', 'bfloat16'):
+                rel = 1e4 * float(np.finfo(np.float32).eps)
         for x, y in zip(ref_, got):
             if x.shape != y.shape:
                 self.events.append((qual, 'layout:shape %s vs %s' % (x.shape, y.shape)))
@@ -268,7 +285,7 @@ class ImmutabilityGuard:
                 with np.errstate(all='ignore'):
                     d = np.abs(x.astype(np.complex128) - y.astype(np.complex128))
                     sc = max(1.0, float(np.nanmax(np.abs(x))) if x.size else 1.0)
-                    bad = np.isfinite(x).all() and (not np.isfinite(y).all() or float(d.max() if d.size else 0.0) > 1e-6 * sc)  # 1e-6: square roots at a spectrum edge amplify eps to ~1e-8
+                    bad = np.isfinite(x).all() and (not np.isfinite(y).all() or float(d.max() if d.size else 0.0) > rel * sc)
             else:
                 bad = not np.array_equal(x, y)
             if bad:
@@ -516,6 +533,9 @@ class ImmutabilityGuard:
                 guard._layout_check(f, qual, a, kw, r)
             return r
         wrapper.__immutability_guard__ = True
+        for attr in ('cache_clear', 'cache_info', 'cache_parameters'):  # keep the lru_cache interface (clear_numqi_caches looks for it)
+            if hasattr(f, attr):
+                setattr(wrapper, attr, getattr(f, attr))
         return wrapper
 
     def install(self):
@@ -526,8 +546,9 @@ class ImmutabilityGuard:
             if not any(n == p or n.startswith(p + '.') or n.startswith(p) for p in self.prefixes):
                 continue
             for k, v in list(vars(m).items()):
-                if isinstance(v, types.FunctionType) and (v.__module__ or '').startswith('numqi') and not k.startswith('_') \
-                        and not getattr(v, '__immutability_guard__', False):
+                # plain functions and functions decorated directly with functools.lru_cache
+                if isinstance(v, (types.FunctionType, functools._lru_cache_wrapper)) and (getattr(v, '__module__', '') or '').startswith('numqi') \
+                        and not k.startswith('_') and not getattr(v, '__immutability_guard__', False):
                     qual = '%s.%s' % (v.__module__, v.__name__)
                     if qual in self.exclude or v.__name__.endswith('_'):
                         continue
